@@ -734,8 +734,7 @@ func (g *gen) text() {
 		g.emit("utf16null", li, h16le+strings.Repeat("0", 16), g.tail(), -1, "be", l+"UTF16LENull")
 		g.emit("utf16null", li, h16be+strings.Repeat("0", 16), g.tail(), -1, "be", l+"UTF16BENull")
 	}
-	// malformed text: arbitrary bytes (surrogate halves biased in). The UTF-16 decoders' replacement
-	// behaviour is modelled; for malformed UTF-8 only framing/position is compared (driver: t:?).
+	// malformed text: arbitrary bytes (surrogate halves biased in)
 	for i := 0; i < n/2; i++ {
 		bs := g.r.Bytes(g.r.Intn(10))
 		for j := range bs {
@@ -748,6 +747,73 @@ func (g *gen) text() {
 		bb := bitsOfBytes(bs)
 		for _, nm := range []string{"UTF8", "UTF16", "UTF16LE", "UTF16BE"} {
 			g.emit("malformed", a, bb, g.tail(), -1, "be", layers[(ci+len(nm))%len(layers)]+nm, strconv.Itoa(len(bs)))
+		}
+	}
+	// malformed UTF-8 built from ill-formed pieces (x/text replaces every maximal ill-formed subpart by
+	// U+FFFD); long strings so that transform.String's 128-byte chunks cut sequences in the middle
+	pieces := [][]byte{
+		[]byte("a"), []byte("xyz"), {0xc3, 0xa9}, {0xe2, 0x82, 0xac}, {0xf0, 0x9f, 0x98, 0x80}, {0xef, 0xbb, 0xbf},
+		{0xc3}, {0xe2}, {0xe2, 0x82}, {0xf0}, {0xf0, 0x9f}, {0xf0, 0x9f, 0x98}, // truncated
+		{0xc0, 0x80}, {0xc1, 0xbf}, {0xe0, 0x80, 0x80}, {0xe0, 0x9f, 0xbf}, {0xf0, 0x80, 0x80, 0x80}, {0xf0, 0x8f, 0xbf, 0xbf}, // over-long
+		{0xed, 0xa0, 0x80}, {0xed, 0xbf, 0xbf}, {0xed, 0x9f, 0xbf}, // surrogates (and the last scalar before them)
+		{0xf4, 0x8f, 0xbf, 0xbf}, {0xf4, 0x90, 0x80, 0x80}, {0xf5, 0x80, 0x80, 0x80}, {0xff}, {0xfe}, {0xf8, 0x88, 0x80, 0x80, 0x80},
+		{0x80}, {0xbf}, {0x80, 0x80, 0x80}, {0xe0, 0xa0}, {0xe0, 0xa0, 0x41}, {0xf0, 0x90, 0x41}, {0xf0, 0x90, 0x80, 0x41}, {0xc2, 0x41},
+		{0xe1, 0x80, 0xc0}, {0xf1, 0x80, 0x80, 0xc0}, {0xf4, 0x8f}, {0xed, 0x9f}, {0xe0, 0xbf}, {0xf0, 0xbf, 0xbf},
+	}
+	nm := n
+	for i := 0; i < nm; i++ {
+		var bs []byte
+		np := g.r.Intn(6)
+		if i%7 == 0 {
+			np = 40 + g.r.Intn(200) // long: several transform chunks
+		}
+		for j := 0; j < np; j++ {
+			if g.r.Intn(5) == 0 {
+				bs = append(bs, byte(0x80+g.r.Intn(0x80)))
+			} else {
+				bs = append(bs, pieces[g.r.Intn(len(pieces))]...)
+			}
+		}
+		if i%7 == 0 && i%2 == 0 {
+			// filler so that a multi-byte piece straddles offset 128 / 256
+			bs = append(append([]byte(strings.Repeat("f", 125+g.r.Intn(4))), pieces[g.r.Intn(len(pieces))]...), bs...)
+		}
+		ci++
+		a := ci % 8
+		bb := bitsOfBytes(bs)
+		l := func() string { return layers[g.r.Intn(len(layers))] }
+		g.emit("mal8", a, bb, g.tail(), -1, "be", l()+"UTF8", strconv.Itoa(len(bs)))
+		g.emit("mal8", a, bb+"00000000", g.tail(), -1, "be", l()+"UTF8Null")
+		g.emit("mal8", a, bb+"00000000"+bb, g.tail(), -1, "be", l()+"UTF8NullFixedLen", strconv.Itoa(2*len(bs)+1))
+		if len(bs) < 256 {
+			g.emit("mal8", a, bitsOfUint(uint64(len(bs)), 8)+bb, g.tail(), -1, "be", l()+"UTF8ShortString")
+		}
+		// the same bytes as UTF-16 (odd lengths, unpaired and swapped surrogates)
+		var ws []byte
+		nu := g.r.Intn(8)
+		if i%7 == 0 {
+			nu = 60 + g.r.Intn(140)
+		}
+		for j := 0; j < nu; j++ {
+			var u uint16
+			switch g.r.Intn(5) {
+			case 0:
+				u = uint16(0xd800 + g.r.Intn(0x400))
+			case 1:
+				u = uint16(0xdc00 + g.r.Intn(0x400))
+			case 2:
+				u = []uint16{0xfeff, 0xfffe, 0xffff, 0xfffd, 0x0041}[g.r.Intn(5)]
+			default:
+				u = uint16(1 + g.r.Intn(0xffff))
+			}
+			ws = append(ws, byte(u>>8), byte(u))
+		}
+		if g.r.Intn(3) == 0 {
+			ws = append(ws, byte(1+g.r.Intn(255)))
+		}
+		wb := bitsOfBytes(ws)
+		for _, nm := range []string{"UTF16", "UTF16LE", "UTF16BE"} {
+			g.emit("mal16", a, wb, g.tail(), -1, "be", l()+nm, strconv.Itoa(len(ws)))
 		}
 	}
 	g.emit("neg", 0, "", g.tail(), -1, "be", "TryUTF8", "-1")
